@@ -68,7 +68,10 @@ def gen_cases(ctx):
         sts = combos[n % len(combos)]
         exact = (n // 3) % 2 == 0
         nfiles = len(sts)
+        # with two files the observed frame belongs to the later one or (every other round) to the earlier one
         obs = rng.choice([2, 3]) if nfiles == 2 else rng.randint(0, 3)
+        if nfiles == 2 and (n // len(combos)) % 2 == 1:
+            obs = [1, 0][(n // (2 * len(combos))) % 2]
         out.append({"k": "file", "seed": rng.randrange(10**9), "storages": sts, "storage": sts[-1], "exact": exact,
                     "imax0": rng.randint(7, 11), "jmax0": rng.randint(7, 10), "N": rng.choice([2, 4]) if exact else rng.randint(2, 5),
                     "field": rng.choice(["random", "random", "linear"]), "mask": rng.choice(["random", "random", "sea"]),
